@@ -98,6 +98,17 @@ package db
 //@ extern (datastore.Txn).OnSuccess(txn, fn)
 //@   nodefault
 //@
+//@ // ===== C11: whichever call creates the document (Create, CreateMany, Save), its encryption options reach
+//@ // the creating write: create builds the context of that write from the options it was given
+//@ func (*collection).create
+//@   assert before call#1 save: arg1 == res(setContextDocEncryption, 1, 0) && sameslice(callarg(setContextDocEncryption, 1, 1), opts)
+//@   tags C11
+//@ func (*collection).Save
+//@   assert before call#1 create: sameslice(arg3, opts) && arg2 == doc
+//@   tags C11
+//@ func (*collection).Create
+//@   assert before call#1 create: sameslice(arg3, opts) && arg2 == doc
+//@   tags C11
 //@ // every successful save announces its document-level commit: the publication is registered on every path
 //@ // that wrote the commit, whether or not a field changed
 //@ func (*collection).save -> (err)
